@@ -100,9 +100,10 @@ def gen():
     emit_consts("ArgFlags", ar, ["REQUIRED", "OPTIONAL", "MULTI_VALUED", "STRING", "BOOLEAN",
                                  "INTEGER", "FLOAT", "NULLABLE"], rel_a)
 
-    def fn(tree, rel, cls, name, spec, constmap):
+    def fn(tree, rel, cls, name, spec, constmap, bare_const=None):
         node = P.find_function(tree, cls, name, rel)
-        t = P.Translator(rel, constmap, spec)
+        t = P.Translator(rel, constmap, spec, cls=cls)
+        t.bare_const = bare_const
         logic.append("-- %s  %s.%s (line %d)\n" % (rel, cls, name, node.lineno) + t.function(node))
         summary["functions"].append("%s:%s.%s -> %s" % (rel, cls, name, spec.lean_name))
 
@@ -112,11 +113,20 @@ def gen():
        P.FnSpec("mayWrite", [("flags", "flags", "optnat")], "bool",
                 self_attrs={"_quiet": ("quiet", "bool"), "_verbosity": ("verbosity", "nat")},
                 doc="Output._may_write: whether text with these flags reaches the stream"),
-       {k: "IOFlags." + k for k in io})
+       {k: "IOFlags." + k for k in io},
+       # the flag names are module globals of output.py: they must be the constants of flags.py
+       bare_const=lambda name, node: P.imported_as(tree, name, (".flags", "clikit.api.io.flags", "clikit.api.io"), rel))
     # the signature gets the two fields of `self` it reads as leading parameters
     logic[-1] = logic[-1].replace("def mayWrite (flags", "def mayWrite (quiet : Bool) (verbosity : Nat) (flags")
 
     # ---- option flags ---------------------------------------------------------------
+    # `self.NAME` and `super()` are resolved along Option -> AbstractOption -> object
+    P.check_bases(tree_ao, "AbstractOption", [], rel_ao)
+    P.check_bases(tree_o, "Option", ["AbstractOption"], rel_o)
+    P.imported_as(tree_o, "AbstractOption", (".abstract_option", "clikit.api.args.format.abstract_option"), rel_o)
+    P.check_bases(tree_a, "Argument", [], rel_a)
+    if set(ao) & set(op):
+        raise P.Untranslatable("%s: Option redefines %s of AbstractOption" % (rel_o, sorted(set(ao) & set(op))))
     aomap = {k: "AbsOptFlags." + k for k in ao}
     fn(tree_ao, rel_ao, "AbstractOption", "_validate_flags",
        P.FnSpec("absValidateFlags", [("flags", "flags", "nat")], "except_unit"), aomap)
